@@ -271,8 +271,10 @@ fn string_literal(c: &mut Choices) -> LitCase {
     let mut after_continuation = false;
     for _ in 0..n {
         if c.chance(20) {
-            // line continuation: backslash, newline, then whitespace is skipped
-            text.push_str("\\\n      \t");
+            // line continuation: backslash, newline, then any whitespace (also further
+            // newlines) is skipped
+            text.push_str("\\\n");
+            text.push_str(["      \t", "", "\n", "  \n\n  ", "\t\n \t", " "][c.below(6)]);
             feats += 1;
             after_continuation = true;
             continue;
@@ -295,8 +297,17 @@ fn fstring_literal(c: &mut Choices) -> LitCase {
     let mut val = String::new();
     let mut text = String::new();
     let mut feats = 0;
+    let mut after_continuation = false;
     for _ in 0..n {
-        match c.below(6) {
+        let was_after = std::mem::replace(&mut after_continuation, false);
+        match c.below(7) {
+            6 => {
+                // line continuation in the text of an f-string
+                text.push_str("\\\n");
+                text.push_str(["    ", "", "\n", " \n\n\t", " "][c.below(5)]);
+                feats += 1;
+                after_continuation = true;
+            }
             0 => {
                 val.push('{');
                 text.push_str("{{");
@@ -326,7 +337,11 @@ fn fstring_literal(c: &mut Choices) -> LitCase {
                     continue;
                 }
                 val.push(ch);
-                text.push_str(&spell_char(ch, true, c, &mut feats));
+                if was_after && ch.is_whitespace() {
+                    let _ = write!(text, "\\u{{{:x}}}", ch as u32);
+                } else {
+                    text.push_str(&spell_char(ch, true, c, &mut feats));
+                }
             }
         }
     }
@@ -566,6 +581,31 @@ impl W {
                 feats += 1;
             }
             out.push('\n');
+        }
+        // how the text ends: with a newline, without one, or in a comment that nothing terminates
+        match c.below(6) {
+            0 | 1 => {}
+            2 => {
+                while out.ends_with('\n') {
+                    out.pop();
+                }
+                feats += 1;
+            }
+            3 => {
+                while out.ends_with('\n') {
+                    out.pop();
+                }
+                out.push_str(" // the last line is a comment without a newline: fn x() {");
+                feats += 1;
+            }
+            4 => {
+                out.push_str("// the last line is a comment without a newline \" é");
+                feats += 1;
+            }
+            _ => {
+                out.push_str("\n\n   \t//\n//");
+                feats += 1;
+            }
         }
         // the inputs are the chunks after the two generator streams
         let mut inputs_case: Case = vec![Vec::new(), Vec::new()];
